@@ -48,6 +48,7 @@ class _Wait:
 class Scheduler:
     def __init__(self, start_time: float = START_TIME, seed: int = 0):
         self.now = float(start_time)
+        self.t0 = float(start_time)
         self.threads: list[Thread] = []
         self.cur: Thread | None = None
         self._ctl = _rt.Semaphore(0)
@@ -73,7 +74,7 @@ class Scheduler:
     # ---- observation log -------------------------------------------------
     def emit(self, ev: str, **kw):
         self.seq += 1
-        rec = {"i": self.seq, "t": int(self.now), "ev": ev}
+        rec = {"i": self.seq, "t": int(self.now) - int(self.t0), "ev": ev}
         rec.update(kw)
         self.obs.append(rec)
         return rec
